@@ -9,12 +9,16 @@ Open Scope N_scope.
 (* For ALL channel configurations and ALL sequences of publish (every subset
    of idempotency / version / key mode / CAS / TTL refresh / delta options),
    remove, clear, read-state, read-stream, clock advances and whole expiry
-   sweeps, everything the model of the memory map broker returns and
+   key-expiry sweeps, everything the model of the memory map broker returns and
    broadcasts, operation by operation, is what the reference map
    (Model/MapSpec.v: state = fold of the unsuppressed operations, full log,
    checks decided in the order version, key mode, CAS, one log entry and one
    broadcast per accepted operation of a stream-backed channel, expiry in
    deadline order) returns and broadcasts. *)
+(* [ref_op] excludes the atomic sweep phases (C24) and, for now, the two retention
+   sweep iterations OExpireStreams / ORemoveChannels: the model and the reference map
+   contain them and both are compared with the real sweepers on every run, but the
+   refinement proof below does not cover them yet (partial for the retention half). *)
 Theorem C20_refines :
   forall cfgs ops, forallb ref_op ops = true ->
     run_obs cfgs hub0 ops = spec_obs cfgs sstate0 ops.
